@@ -435,6 +435,8 @@ func (s *state) enterCut(b *ssa.BasicBlock) {
 	fn := b.Parent()
 	li := loopFor(fn, b)
 	spec := u.loopSpecFor(fn, li.ord)
+	u.curLoopSpec = spec
+	defer func() { u.curLoopSpec = nil }()
 	e := s.contractEnv(nil, fn, nil, nil)
 	e.useNames = true
 	e.pkg = fn.Pkg.Pkg
@@ -449,6 +451,9 @@ func (s *state) enterCut(b *ssa.BasicBlock) {
 		t := types.Type(types.Typ[types.Uintptr])
 		if v0 := (&env{u: u, st: s.scratchFull(), old: s.old, pkg: e.pkg, vars: map[string]Val{}, what: e.what}); v0 != nil {
 			_ = v0
+		}
+		if tt, ok := u.ghostTypes["L_"+g.label]; ok {
+			t = tt
 		}
 		nv := s.symVal("ghost_"+g.label, t)
 		s.ghost["L_"+g.label] = nv
@@ -493,6 +498,8 @@ func (s *state) loopHeader(b, pred *ssa.BasicBlock) bool {
 	fn := b.Parent()
 	li := loopFor(fn, b)
 	spec := u.loopSpecFor(fn, li.ord)
+	u.curLoopSpec = spec
+	defer func() { u.curLoopSpec = nil }()
 	back := b.Dominates(pred)
 	if spec != nil && spec.unroll > 0 {
 		if !back {
@@ -525,6 +532,7 @@ func (s *state) loopHeader(b, pred *ssa.BasicBlock) bool {
 			if v.K != nil {
 				v = u.mat(v, types.Typ[types.Uintptr])
 			}
+			u.ghostTypes["L_"+g.label] = v.T
 			s.ghost["L_"+g.label] = v
 		}
 	}
@@ -578,6 +586,15 @@ func (s *state) loopHeader(b, pred *ssa.BasicBlock) bool {
 		s.applyHavoc(ms)
 		if spec != nil {
 			for _, g := range spec.ghosts {
+				stepped := false
+				for _, st := range spec.steps {
+					if st.label == g.label {
+						stepped = true
+					}
+				}
+				if !stepped {
+					continue // a ghost without a step clause is a snapshot taken at loop entry
+				}
 				old := s.ghost["L_"+g.label]
 				nv := s.symVal("ghost_"+g.label, old.T)
 				s.ghost["L_"+g.label] = nv
